@@ -31,6 +31,8 @@ pub struct C16 {
     pair_syms: Vec<usize>,
     skipped_unit_names: Vec<String>,
     ctx: Lazy<Context>,
+    /// the bundled database plus NAMED_DEFS
+    named: Lazy<Context>,
 }
 
 const COUNTS: [&str; 6] = ["", "2", "10", "4294967295", "4294967296", "99999999999999999999"];
@@ -64,6 +66,21 @@ fn rtext(r: &Rat) -> String {
 /// Formulas asked of the bundled database and then, on the same thread, of (0) a small database
 /// whose elements weigh 12 / 1 / 16 kg per mol, (1) that database after a further load made carbon
 /// 13 kg per mol, (2) a database without any element.  (formula, counts of C, H, O)
+/// A definitions file can give a name to a scaled or summed substance; asking the name must be the
+/// same as asking the expression.  (name, defining expression)
+const NAMED_DEFS: [(&str, &str); 9] = [
+    ("zz_three_water", "3 water"),
+    ("zz_quarter_water", "water / 4"),
+    ("zz_tank", "2 m^3 water"),
+    ("zz_pair", "2 (carbon + oxygen)"),
+    ("zz_half_pair", "(carbon + oxygen) / 2"),
+    ("zz_plain_pair", "carbon + oxygen"),
+    ("zz_mix", "2 carbon + 3 oxygen"),
+    ("zz_alias", "water"),
+    ("zz_air3", "3 air"),
+];
+const NAMED_PROPS: [&str; 9] = ["molar_mass", "mass", "amount", "density", "volume", "specific_heat", "specific_energy", "temperature", "pressure_column"];
+const NAMED_FORMS: [&str; 4] = ["{p} of {x}", "{p} of (2 {x})", "{p} of ({x} / 5)", "{x}"];
 const OTHER_FORMULAS: [(&str, [i64; 3]); 5] = [("CH4", [1, 4, 0]), ("C2H6", [2, 6, 0]), ("CO2", [1, 0, 2]), ("H2O2", [0, 2, 2]), ("C6H12O6", [6, 12, 6])];
 const SMALL_ELEMENTS: &str = "kg !kilogram\nmol !mole\n!symbol carbon C\ncarbon {\n    molar_mass mass 12 kg / amount 1 mol\n}\n!symbol hydrogen H\nhydrogen {\n    molar_mass mass 1 kg / amount 1 mol\n}\n!symbol oxygen O\noxygen {\n    molar_mass mass 16 kg / amount 1 mol\n}\n";
 
@@ -129,7 +146,8 @@ impl C16 {
         fams.add("classic compounds", vec![COMPOUNDS.len() as u64]);
         fams.add("near misses", vec![NEAR_MISS.len() as u64]);
         fams.add("formulas in other databases on the same thread", vec![OTHER_FORMULAS.len() as u64, 3]);
-        C16 { fams, props, amounts, symbols, pair_syms, skipped_unit_names: skipped, ctx: Lazy::new() }
+        fams.add("named definitions of scaled and summed substances", vec![NAMED_DEFS.len() as u64, NAMED_PROPS.len() as u64, NAMED_FORMS.len() as u64]);
+        C16 { fams, props, amounts, symbols, pair_syms, skipped_unit_names: skipped, ctx: Lazy::new(), named: Lazy::new() }
     }
 }
 
@@ -149,7 +167,7 @@ impl Space for C16 {
         Meta {
             id: "C16",
             level: "exploration",
-            rule: "every substance x every property of the registry: output of an amount a (5 rational amounts, written in base units of the input dimensionality) = output*(a/input) exactly; the input of that result = a; a wrong-dimension amount is a Conformance error; `<prop> of (k S)` and `(S / k)` scale by k and 1/k; const properties listed by `k S` scale by k. Formulas: every element symbol x counts {none, 2, 10, 2^32-1, 2^32, 1e20-1}, all ordered pairs of 12 symbols x 3 count patterns, six classic compounds: molar mass = exact count-weighted sum; 22 near-miss strings are not formulas. Plus 5 formulas asked of the bundled database and then, on the same thread, of a small database with other element masses, of that database after a load redefined an element, and of a database without elements. Non-trivial = judged; distinct by query text".into(),
+            rule: "every substance x every property of the registry: output of an amount a (5 rational amounts, written in base units of the input dimensionality) = output*(a/input) exactly; the input of that result = a; a wrong-dimension amount is a Conformance error; `<prop> of (k S)` and `(S / k)` scale by k and 1/k; const properties listed by `k S` scale by k. Formulas: every element symbol x counts {none, 2, 10, 2^32-1, 2^32, 1e20-1}, all ordered pairs of 12 symbols x 3 count patterns, six classic compounds: molar mass = exact count-weighted sum; 22 near-miss strings are not formulas. Plus 5 formulas asked of the bundled database and then, on the same thread, of a small database with other element masses, of that database after a load redefined an element, and of a database without elements. Plus 9 definitions that name a scaled, divided or summed substance (`zz_pair 2 (carbon + oxygen)`, `zz_tank 2 m^3 water`, ...) loaded on top of the bundled database: 9 properties x 4 query forms asked of the name and of the bracketed expression must agree in value and dimensionality. Non-trivial = judged; distinct by query text".into(),
             assumptions: vec![
                 "properties whose input/output names are not unique within the substance are skipped for the name-addressed queries (the statement's own restriction) and counted".into(),
                 "a substance is addressed only by names that do not also resolve as a unit (units win: `hg` is hectogram, not mercury)".into(),
@@ -166,6 +184,10 @@ impl Space for C16 {
     fn describe(&self, idx: u64) -> String {
         let (f, d) = self.fams.locate(idx);
         if f == self.fams.fams.len() - 1 {
+            let (name, expr) = NAMED_DEFS[d[0] as usize];
+            return format!("`{}` with `{} {}` loaded, against the same with ({})", NAMED_FORMS[d[2] as usize].replace("{p}", NAMED_PROPS[d[1] as usize]).replace("{x}", name), name, expr, expr);
+        }
+        if f == self.fams.fams.len() - 2 {
             return format!("molar_mass of {} in {}", OTHER_FORMULAS[d[0] as usize].0, ["a small database asked after the bundled one", "that database after a load redefined carbon", "a database without elements"][d[1] as usize]);
         }
         self.plan(idx).0
@@ -178,11 +200,49 @@ impl Space for C16 {
     }
     fn reset(&mut self) {
         self.ctx.clear();
+        self.named.clear();
     }
     fn run(&mut self, idx: u64) -> CaseOut {
         {
             let (f, d) = self.fams.locate(idx);
             if f == self.fams.fams.len() - 1 {
+                let (name, expr) = NAMED_DEFS[d[0] as usize];
+                let form = NAMED_FORMS[d[2] as usize].replace("{p}", NAMED_PROPS[d[1] as usize]);
+                let (q_name, q_expr) = (form.replace("{x}", name), form.replace("{x}", &format!("({})", expr)));
+                let ctx = self.named.get(|| {
+                    let mut c = fresh_ctx();
+                    let text: String = NAMED_DEFS.iter().map(|(n, e)| format!("{} {}\n", n, e)).collect();
+                    let (res, printed) = capture_stdout(|| c.load_definitions(&text));
+                    if res.is_err() || !printed.trim().is_empty() {
+                        panic!("the named-substance definitions do not load: {:?} {}", res, printed);
+                    }
+                    c
+                });
+                let mut out = CaseOut::ok("named substance").key(hash64(&q_name));
+                // the name in the replies differs by construction; values and dimensionalities must not
+                let strip = |r: &Result<QueryReply, QueryError>| -> String {
+                    match r {
+                        Ok(QueryReply::Substance(s)) => {
+                            let v = serde_json::to_value(s).unwrap_or(serde_json::Value::Null);
+                            format!("substance amount {} properties {}", v["amount"], v["properties"])
+                        }
+                        Ok(_) | Err(_) => match number_of(r) {
+                            Ok((v, d)) => format!("{} [{}]", v, dims_str(&d)),
+                            // the error texts name the substance, which differs by construction
+                            Err(e) => format!("not a number: {}", e.split(':').next().unwrap_or("")),
+                        },
+                    }
+                };
+                let (a, b) = (strip(&eval_q(ctx, &q_name)), strip(&eval_q(ctx, &q_expr)));
+                if a != b {
+                    out = out.viol("a named scaled substance answers differently from the expression it names", format!("`{}` -> {} but `{}` -> {}", q_name, engine::util::clip(&a, 300), q_expr, engine::util::clip(&b, 300)));
+                }
+                if a.starts_with("not a number") {
+                    out.outcome = "named substance: both refused".into();
+                }
+                return out;
+            }
+            if f == self.fams.fams.len() - 2 {
                 let (formula, counts) = OTHER_FORMULAS[d[0] as usize];
                 let q = format!("molar_mass of {}", formula);
                 let mut out = CaseOut::ok("other database").key(hash64(&("other", formula, d[1])));
